@@ -1,12 +1,48 @@
 """C11 — only configurable parameters of registered configurables can ever be bound."""
 import gen_gin as G
 import refmodel
-from gindom import run_impl, to_driver, compare  # noqa: F401
-from props.c01 import tally  # noqa: F401
+import gindom
+from props import c01
+
+
+def _dyn(case):
+  return case.get('dom') == 'dyn'
+
+
+def run_impl(case):
+  if _dyn(case):
+    from props import c19
+    return c19.run_impl(case)
+  return gindom.run_impl(case)
+
+
+def to_driver(case, impl):
+  if _dyn(case):
+    from props import c19
+    return c19.to_driver(case, impl)
+  return gindom.to_driver(case, impl)
+
+
+def compare(case, impl, model):
+  if _dyn(case):
+    from props import c19
+    return c19.compare(case, impl, model)
+  return gindom.compare(case, impl, model)
+
+
+def tally(stats, case, impl):
+  if _dyn(case):
+    stats['dynamic_registration_cases'] = stats.get('dynamic_registration_cases', 0) + 1
+    k = 'dyn:outcome=' + str(impl.get('err'))
+    stats[k] = stats.get(k, 0) + 1
+    for kind, _names in (case.get('_prereg_lists') or {}).values():
+      stats['dyn:list=' + kind] = stats.get('dyn:list=' + kind, 0) + 1
+    return
+  c01.tally(stats, case, impl)
 
 ID = 'C11'
 DOMAIN = 'gin/state'
-PROPS_FILES = ['Gin/Props/C11.lean']
+PROPS_FILES = ['Gin/Props/C11.lean', 'Gin/Props/C11b.lean']
 ANCHOR_FILES = ['config.py', 'selector_map.py']
 RULE = ('[fn probes under functools.wraps layers; class probes whose base defines the other constructor with *args/**kwargs; registered methods with their own allow/deny list] '
         '2-4 registered probes with random signatures and allow/deny lists (sometimes a class whose method was '
@@ -92,13 +128,29 @@ def gen_cases(rng, tier, boost=1):
   n = (800 if tier == 'quick' else 20000) * boost
   for _ in range(n):
     yield gen_case(rng)
+  # with dynamic registration: files of the C19 generator over objects that were registered from Python with an
+  # allow or deny list — the lists stay in force whatever the files configure first (e.g. a method of the class,
+  # which registers the class again), through every spelling, in blocks of included files as well
+  from props import c19
+  want, seen = (120 if tier == 'quick' else 4000) * boost, 0
+  for case in c19.gen_cases(rng, 'thorough', boost):
+    if case.get('_prereg_lists'):
+      yield case
+      seen += 1
+      if seen >= want:
+        break
 
 
 def oracle(case, impl):
+  if _dyn(case):
+    from props import c19
+    return c19.oracle(case, impl)
   return refmodel.check_history(case, impl, {'bind', 'config', 'finalize', 'register'})
 
 
 def nontrivial(case, impl):
+  if _dyn(case):
+    return impl.get('err') == 'ValueError' or bool(impl.get('bindings'))
   seen_ok = False
   for op, res in zip(case['ops'], impl['out']):
     if op['op'] == 'bind':
@@ -110,6 +162,10 @@ def nontrivial(case, impl):
 
 
 def shrink(case):
+  if _dyn(case):
+    from props import c19
+    yield from c19.shrink(case)
+    return
   ops = case['ops']
   for k in range(len(ops) - 1, -1, -1):
     if ops[k]['op'] == 'register':
